@@ -365,7 +365,7 @@ def run_harness(h, tier, outdir):
                 if bad: res['error'] = 'vacuous: witness not reachable: %s' % bad
         res['last_out'] = r['out']
     # expected failures (documented, e.g. a harness half that demonstrates a known finding)
-    harness_faults = [f for f in res['failures'] if f['desc'].startswith(('unwinding assertion', 'no body for callee', 'harness bound', 'layout guard', 'recursion'))]
+    harness_faults = [f for f in res['failures'] if f['desc'].startswith(('unwinding assertion', 'no body for callee', 'harness bound', 'layout guard', 'recursion', 'model heap', 'model object table', 'model stack'))]
     if harness_faults:
         res['status'] = 'broken'; res['error'] = 'harness fault (bound too small / missing stub): %s' % sorted(set(f['desc'] for f in harness_faults))[:4]
         res.pop('last_out', None); res['wall_s'] = round(time.time() - t0, 2); return res
